@@ -12,6 +12,7 @@ package main
 //   2005 ((size seed)..)        fsutil.VerifBuffer
 //   2007 (mode ((packets lens)..) schedule)  several protoStreams in one process, interleaved (c20_streams.go)
 //   2008 (sel (op..))           histories on ONE Stat / Packet object: mutations, Reset, every encode path (c20_history.go)
+//   2009 (mode recv lens send schedule)  one protoStream in both directions, gated (c20_duplex.go)
 //   2006 (mode (stat..) [cut])  listing records (LE length + VT bytes) through the real buffer, parsed back (c20_listing.go)
 // Harness-detected anomalies are encoded as output values no model can produce:
 //   (#ffff msg) panic, (#fffe) hang, (#fffd what ..) aliasing / pooled-decode mismatch.
@@ -1044,6 +1045,7 @@ func genC20(g *Gen) {
 	}
 	c20GenReaderBehaviour(g) // errors reported together with data, at and off buffer boundaries (c20_reader.go)
 	c20GenHistories(g)       // one object: size / encode / send, mutate, encode again ... (c20_history.go)
+	c20GenDuplex(g)          // one stream, both directions, SendMsg forced between prefix fragments (c20_duplex.go)
 	c20GenStreams(g)         // several streams in one process, RecvMsg calls interleaved by a gated reader (c20_streams.go)
 
 	// ---- (5) buffer
